@@ -207,7 +207,8 @@ PROPS.update({
 
 PROPS.update({
     'C10': dict(
-        extra_modules=['GraphrsModel.Props.C10Model', 'GraphrsModel.Props.C10EqualSize'],
+        extra_modules=['GraphrsModel.Props.C10Model', 'GraphrsModel.Props.C10EqualSize', 'GraphrsModel.Props.FormulasC10'],
+        translators=['formulas'],
         gens=[('comp', 'small', 2500, 40000, 10), ('comp', 'small', 150, 3000, 24), ('comp', 'small', 10, 150, 40)],
         spec_fields=[r'ok\.cc', r'ok\.wcc', r'ok\.scc', r'ok\.ncc', r'ok\.num', r'ok\.bfs', r'ok\.eq'],
         model_fields=[r'build', r'cc', r'wcc', r'scc', r'ncc', r'num', r'eq', r'agree\.bfsorder'],
